@@ -1,0 +1,105 @@
+//go:build verif
+
+// This file exists only under the "verif" build tag. It exposes unexported
+// peer-facing parsers of this package to an external verification harness;
+// it adds no behaviour and is not compiled into normal builds.
+
+package httpserver
+
+import (
+	"bytes"
+	"context"
+	"io"
+	"net"
+	"net/http"
+	"time"
+
+	"github.com/tmpim/casket/caskettls"
+)
+
+// VerifParseClientHello runs parseRawClientHello.
+func VerifParseClientHello(data []byte) caskettls.ClientHelloInfo {
+	return caskettls.ClientHelloInfo(parseRawClientHello(data))
+}
+
+// VerifHeuristics runs every looksLike* heuristic and the heartbeat check.
+func VerifHeuristics(info caskettls.ClientHelloInfo) (firefox, chrome, edge, safari, tor, heartbeat bool) {
+	ri := rawHelloInfo(info)
+	return ri.looksLikeFirefox(), ri.looksLikeChrome(), ri.looksLikeEdge(), ri.looksLikeSafari(), ri.looksLikeTor(), ri.advertisesHeartbeatSupport()
+}
+
+// VerifGetVersion runs getVersion.
+func VerifGetVersion(ua, softwareName string) float64 { return getVersion(ua, softwareName) }
+
+type verifAddr struct{}
+
+func (verifAddr) Network() string { return "tcp" }
+func (verifAddr) String() string  { return "192.0.2.1:4711" }
+
+// verifConn delivers the given segments one per Read (truncated to the
+// caller's buffer), then io.EOF.
+type verifConn struct {
+	segs [][]byte
+}
+
+func (c *verifConn) Read(b []byte) (int, error) {
+	for len(c.segs) > 0 && len(c.segs[0]) == 0 {
+		c.segs = c.segs[1:]
+	}
+	if len(c.segs) == 0 {
+		return 0, io.EOF
+	}
+	n := copy(b, c.segs[0])
+	c.segs[0] = c.segs[0][n:]
+	return n, nil
+}
+func (c *verifConn) Write(b []byte) (int, error)        { return len(b), nil }
+func (c *verifConn) Close() error                       { return nil }
+func (c *verifConn) LocalAddr() net.Addr                { return verifAddr{} }
+func (c *verifConn) RemoteAddr() net.Addr               { return verifAddr{} }
+func (c *verifConn) SetDeadline(t time.Time) error      { return nil }
+func (c *verifConn) SetReadDeadline(t time.Time) error  { return nil }
+func (c *verifConn) SetWriteDeadline(t time.Time) error { return nil }
+
+// VerifRecordHello feeds segments through the real clientHelloConn.Read,
+// reading with the given buffer sizes (cycled), and returns what the
+// listener recorded for the connection, whether anything was recorded, and
+// the bytes the reader (crypto/tls in production) obtained.
+func VerifRecordHello(segments [][]byte, readSizes []int) (info caskettls.ClientHelloInfo, recorded bool, passedThrough []byte) {
+	segs := make([][]byte, len(segments))
+	for i := range segments {
+		segs[i] = append([]byte(nil), segments[i]...)
+	}
+	l := &tlsHelloListener{helloInfos: make(map[string]rawHelloInfo)}
+	c := &clientHelloConn{Conn: &verifConn{segs: segs}, listener: l, buf: new(bytes.Buffer)}
+	if len(readSizes) == 0 {
+		readSizes = []int{576}
+	}
+	for i := 0; i < 1<<20; i++ {
+		n := readSizes[i%len(readSizes)]
+		if n <= 0 {
+			n = 1
+		}
+		b := make([]byte, n)
+		k, err := c.Read(b)
+		passedThrough = append(passedThrough, b[:k]...)
+		if err != nil {
+			break
+		}
+	}
+	ri, ok := l.helloInfos[verifAddr{}.String()]
+	return caskettls.ClientHelloInfo(ri), ok, passedThrough
+}
+
+// VerifClassify runs tlsHandler.ServeHTTP for r with info stored as the
+// hello of r's connection and reports the MITM verdict it put in the context.
+func VerifClassify(info caskettls.ClientHelloInfo, r *http.Request) (checked, mitm bool) {
+	l := &tlsHelloListener{helloInfos: map[string]rawHelloInfo{r.RemoteAddr: rawHelloInfo(info)}}
+	h := &tlsHandler{listener: l, next: http.HandlerFunc(func(w http.ResponseWriter, r2 *http.Request) {
+		if v, ok := r2.Context().Value(MitmCtxKey).(bool); ok {
+			checked, mitm = true, v
+		}
+	})}
+	h.ServeHTTP(nil, r.WithContext(context.Background()))
+	return
+}
